@@ -1,7 +1,7 @@
 /-
   Torf.Spec.Sound — what C07 demands of exported bytes, as an executable predicate.
 
-  `parse` is a *strict* bencode parser (canonical integers and lengths, dictionary keys strictly
+  `parse` is the *strict* bencode parser (canonical integers and lengths, dictionary keys strictly
   ascending, nothing after the value).  `soundVal` is the structural demand of the property:
 
     an info dictionary with a name, a positive piece length that is a multiple of 16 KiB, a
@@ -15,73 +15,11 @@ import Torf.Model.Export
 namespace Torf.Sound
 open Torf Torf.Export
 
-def isDigit (b : UInt8) : Bool := 48 ≤ b && b ≤ 57
-
-def spanDigits : Bytes → Bytes × Bytes
-  | [] => ([], [])
-  | b :: r => if isDigit b then let (d, r') := spanDigits r; (b :: d, r') else ([], b :: r)
-
-def digitsVal (ds : Bytes) : Nat := ds.foldl (fun acc d => acc * 10 + (d.toNat - 48)) 0
-
-/-- a canonical decimal numeral (no leading zeros, not empty) and its value -/
-def canonNat (ds : Bytes) : Option Nat :=
-  if ds.isEmpty then none
-  else if ds.length > 1 && ds.head? == some 48 then none
-  else some (digitsVal ds)
-
-/-- `<len>:<bytes>` -/
-def parseStr (bs : Bytes) : Option (Bytes × Bytes) :=
-  let (ds, rest) := spanDigits bs
-  match rest, canonNat ds with
-  | 58 :: r, some n => if n ≤ r.length then some (r.take n, r.drop n) else none
-  | _, _ => none
-
-mutual
-def parseVal : Nat → Bytes → Option (BVal × Bytes)
-  | 0, _ => none
-  | _ + 1, [] => none
-  | fuel + 1, 105 :: rest =>                                    -- i<int>e
-    let (neg, rest1) := match rest with | 45 :: r => (true, r) | r => (false, r)
-    let (ds, rest2) := spanDigits rest1
-    match rest2, canonNat ds with
-    | 101 :: rest3, some n =>
-      if neg && n == 0 then none
-      else some (.int (if neg then -(n : Int) else n), rest3)
-    | _, _ => none
-  | fuel + 1, 108 :: rest => do                                 -- l…e
-    let (l, r) ← parseList fuel rest
-    pure (.list l, r)
-  | fuel + 1, 100 :: rest => do                                 -- d…e
-    let (kvs, r) ← parseDict fuel rest none
-    pure (.dict kvs, r)
-  | fuel + 1, bs => do                                          -- <len>:<bytes>
-    let (b, r) ← parseStr bs
-    pure (.bytes b, r)
-def parseList : Nat → Bytes → Option (List BVal × Bytes)
-  | 0, _ => none
-  | _ + 1, 101 :: rest => some ([], rest)
-  | fuel + 1, bs => do
-    let (v, r) ← parseVal fuel bs
-    let (l, r') ← parseList fuel r
-    pure (v :: l, r')
-def parseDict : Nat → Bytes → Option Bytes → Option (List (Bytes × BVal) × Bytes)
-  | 0, _, _ => none
-  | _ + 1, 101 :: rest, _ => some ([], rest)
-  | fuel + 1, bs, prev => do
-    let (k, r) ← parseStr bs
-    match prev with
-    | some p => if bytesLe k p then none else pure ()           -- strictly ascending keys
-    | none => pure ()
-    let (v, r') ← parseVal fuel r
-    let (kvs, r'') ← parseDict fuel r' (some k)
-    pure ((k, v) :: kvs, r'')
-end
-
-/-- strict parse of a complete byte string -/
-def parse (bs : Bytes) : Option BVal :=
-  match parseVal (bs.length + 1) bs with
-  | some (v, []) => some v
-  | _ => none
+/-- strict parse of a complete byte string: the conforming bencode parser of C05
+    (`Bencode.parseStrict`, characterised by `C05_strict_iff`: it accepts exactly the canonical
+    encodings — minimal numerals, dictionary keys strictly ascending, nothing after the value —
+    within CPython's 4300-digit limit for numerals) -/
+def parse (bs : Bytes) : Option BVal := Bencode.parseStrict Bencode.pyMaxDigits bs
 
 /-! ### the structural demand -/
 
